@@ -226,7 +226,7 @@ func distsOf(ir *claircore.IndexReport) string {
 
 func (h *harness) sectionPipeline() {
 	ctx, r := h.ctx, h.r
-	rounds := h.cfg.N(2, 30)
+	rounds := h.cfg.N(3, 30)
 	for round := 0; round < rounds && !r.Stop(); round++ {
 		h.pipelineRound(ctx, round)
 	}
